@@ -256,6 +256,7 @@ def run(R, tier):
             compare_with_model(R, f'C09_{hi}', S2.alg, S2.regs, wrapper, top, probe2, algs.describe(spec))
     reused_objects(R, rng, tier)
     no_mutation(R, rng, tier)
+    same_name_registered(R, rng, tier)
     symbolic_calls(R, rng, tier)
     large_algebra_histories(R, rng, tier)
     # ---- one thread held inside code generation while another makes the same call ----
@@ -473,6 +474,27 @@ def no_mutation(R, rng, tier):
             keep(f'the result of `r {aname} ..` on {r_desc}', r)
         if not ok:
             continue
+
+
+def same_name_registered(R, rng, tier):
+    """registered helpers sharing one __name__, nested in other registered functions, called in a random order with repetitions and
+    with permuted key orders in between: every call = the plain function (scenario shared with the C11 check)"""
+    from props import C11
+    for it in range(4 if tier == 'quick' else 60):
+        d = rng.choice((2, 3))
+        spec = {'sig': [rng.choice((1, 1, -1)) for _ in range(d)]}
+        alg = algs.make_impl(spec)
+        canon = [int(k) for k in alg.canon2bin.values()]
+        ks = rng.sample(canon, rng.randint(2, 3))
+        vals = [float(rng.randint(1, 5)) for _ in ks]
+        order = [(rng.choice(['g2', 'g3', 'h2', 'h3']), rng.random() < 0.4) for _ in range(10)]
+        order = [('h3', False), ('h2', True), ('h3', False), ('g3', True), ('g2', False), ('g3', False)] + order
+        R.count('history=same-name-registered'); R.case(('same-name-registered', it, repr(spec), tuple(ks)), True)
+        for step, label, got, exp in C11.helper_scenario(spec, ks, vals, order)[:1]:
+            R.violation({'clause': 'history', 'via': 'same-name-registered'},
+                        {'algebra': spec, 'keys': ks, 'values': vals, 'order': order},
+                        f'call {step} of the history {[l + ("(permuted keys)" if p_ else "") for l, p_ in order]} in Algebra({algs.describe(spec)}): registered function {label} returns {got}, '
+                        f'a fresh evaluation of the plain function gives {exp} for x = {list(zip(ks, vals))}'[:700])
 
 
 def large_algebra_histories(R, rng, tier):
